@@ -22,13 +22,14 @@
      distinct_replies req_of cs   the requests of different callbacks of cs have different reply subjects
    Group 0 is the empty worker id (Parallel resources, WithGroup("")): its callbacks do overlap. *)
 From Coq Require Import String.
+From GoRes Require Import Subs.Spec.
 From GoRes Require Import Req.Spec.
 From GoRes Require Import Event.Spec.
 From stdpp Require Import gmap.
 From Coq Require Import NArith.
 From GoRes Require Import Sched.Spec Sched.AccessLTS Compose.Defs Compose.DefsC08 Compose.SchedSeq Compose.SchedEvent
   Compose.SchedC08 Compose.SchedQuery Compose.Examples
-  Compose.DefsReq Compose.ReqFrame Compose.SchedTag Compose.SchedReq Compose.ExamplesReq.
+  Compose.DefsReq Compose.ReqFrame Compose.SchedTag Compose.SchedReq Compose.ExamplesReq Compose.Delivery.
 
 (* ================= 1. one group at a time ================= *)
 
@@ -302,3 +303,88 @@ Example req_counts_computed :
   map rx_count [100; 200; 101; 400; 300]%N = [1; 1; 1; 1; 0]%nat /\
   map (fun c => List.length (from_cb c ps_req)) [100; 200; 101; 400; 300]%N = [2; 1; 3; 1; 0]%nat.
 Proof. vm_compute. split; reflexivity. Qed.
+
+(* ================= 5. delivered once, hence answered once (C09 + C04) ================= *)
+(* Vocabulary: Compose/Delivery.v.  [deliveries c s] = number of subscriptions of configuration c (Subs/, C09)
+   the subject s matches = number of times the connection hands the message to the service; [handed c m] =
+   the hand-overs of request m, each handled by its own callback; [all_pubs cfg ms] = what handling them
+   publishes (C04 interpreter).  [default_cfg name l q] = service `name`, handler registrations l, default
+   ownership; [below name r] = r is the service name or below it (anything for the empty name). *)
+
+(* C09.default_layout_delivered_once / default_layout_outside, as hand-over counts *)
+Theorem default_request_delivered_once : forall name l q r,
+  name_ok name = true -> nats_concrete r = true -> below name r = true ->
+  (has_res l ->
+     deliveries (default_cfg name l q) (subj_plain Subs.Model.t_get r) = 1%nat /\
+     (forall t m, t = Subs.Model.t_call \/ t = Subs.Model.t_auth -> method_ok m = true ->
+        deliveries (default_cfg name l q) (subj_method t r m) = 1%nat)) /\
+  (has_acc l -> deliveries (default_cfg name l q) (subj_plain Subs.Model.t_access r) = 1%nat).
+Proof. exact default_request_delivered_once_pf. Qed.
+
+(* n hand-overs of a request (hypotheses of C04.exactly_one_response) give n responses, 0 for the
+   deliberately unanswered ones: exactly one response iff handed over exactly once *)
+Theorem responses_of_handed : forall cfg c m rt rn me,
+  ms_reply m <> [] -> inbox_like (ms_reply m) = true ->
+  split_subject (ms_subj m) = Some (rt, rn, me) ->
+  List.length (responses (ms_reply m) (all_pubs cfg (handed c m))) =
+  (deliveries c (ms_subj m) * (if silent cfg m rt rn then 0 else 1))%nat.
+Proof. exact responses_of_handed_pf. Qed.
+Theorem one_response_iff_delivered_once : forall cfg c m rt rn me,
+  ms_reply m <> [] -> inbox_like (ms_reply m) = true ->
+  split_subject (ms_subj m) = Some (rt, rn, me) -> silent cfg m rt rn = false ->
+  (List.length (responses (ms_reply m) (all_pubs cfg (handed c m))) = 1%nat <-> deliveries c (ms_subj m) = 1%nat).
+Proof. exact one_response_iff_delivered_once_pf. Qed.
+(* [all_pubs] is what one worker handling the hand-overs one after the other publishes (C04.sequence_unaffected) *)
+Theorem all_pubs_worker : forall cfg ms,
+  fst (handle_requests cfg ms) = Done /\
+  all_pubs cfg ms = concat (map Req.Model.pubs (snd (handle_requests cfg ms))).
+Proof. exact all_pubs_worker_pf. Qed.
+
+(* default ownership: a get / call / auth request for the service name or below is handed over once and
+   answered once; likewise an access request when an access handler is registered *)
+Theorem default_request_answered_once : forall cfg name l q r m rt rn me,
+  name_ok name = true -> nats_concrete r = true -> below name r = true ->
+  has_res l -> request_subject r (ms_subj m) ->
+  ms_reply m <> [] -> inbox_like (ms_reply m) = true ->
+  split_subject (ms_subj m) = Some (rt, rn, me) -> silent cfg m rt rn = false ->
+  handed (default_cfg name l q) m = [m] /\
+  List.length (responses (ms_reply m) (all_pubs cfg (handed (default_cfg name l q) m))) = 1%nat.
+Proof. exact default_request_answered_once_pf. Qed.
+Theorem default_access_answered_once : forall cfg name l q r m rt rn me,
+  name_ok name = true -> nats_concrete r = true -> below name r = true ->
+  has_acc l -> ms_subj m = subj_plain Subs.Model.t_access r ->
+  ms_reply m <> [] -> inbox_like (ms_reply m) = true ->
+  split_subject (ms_subj m) = Some (rt, rn, me) -> silent cfg m rt rn = false ->
+  handed (default_cfg name l q) m = [m] /\
+  List.length (responses (ms_reply m) (all_pubs cfg (handed (default_cfg name l q) m))) = 1%nat.
+Proof. exact default_access_answered_once_pf. Qed.
+(* a request for a resource outside the ownership of a named service is never handed over: nothing published *)
+Theorem outside_request_not_handed : forall cfg name l q r m,
+  name_ok name = true -> outside name r = true ->
+  (request_subject r (ms_subj m) \/ ms_subj m = subj_plain Subs.Model.t_access r) ->
+  handed (default_cfg name l q) m = [] /\ all_pubs cfg (handed (default_cfg name l q) m) = [].
+Proof. exact outside_request_not_handed'_pf. Qed.
+
+(* service "test", handler "m" (resource + access): call.test.m.go is matched by one of the 6 subscriptions
+   and answered once; get.other by none *)
+Example delivery_nonvacuous :
+  name_ok dx_name = true /\ nats_concrete dx_res = true /\ below dx_name dx_res = true /\
+  method_ok [103; 111]%N = true /\ inbox_like dx_inbox = true /\
+  split_subject (ms_subj dx_msg) = Some (Req.Model.t_call, dx_res, [103; 111]%N) /\
+  silent dx_cfg dx_msg Req.Model.t_call dx_res = false /\
+  List.length (subscriptions (default_cfg dx_name dx_layout [])) = 6%nat /\
+  deliveries (default_cfg dx_name dx_layout []) (ms_subj dx_msg) = 1%nat /\
+  List.length (responses dx_inbox (all_pubs dx_cfg (handed (default_cfg dx_name dx_layout []) dx_msg))) = 1%nat /\
+  outside dx_name [111; 116; 104; 101; 114]%N = true /\
+  deliveries (default_cfg dx_name dx_layout []) (ms_subj dx_out) = 0%nat.
+Proof. vm_compute. repeat split. Qed.
+
+(* all of section 5 is closed under the global context *)
+Print Assumptions default_request_delivered_once.
+Print Assumptions responses_of_handed.
+Print Assumptions one_response_iff_delivered_once.
+Print Assumptions all_pubs_worker.
+Print Assumptions default_request_answered_once.
+Print Assumptions default_access_answered_once.
+Print Assumptions outside_request_not_handed.
+Print Assumptions delivery_nonvacuous.
